@@ -15,8 +15,6 @@ pub const O_PARTIAL: u32 = 1 << 7; // C11
 pub const O_STORAGE: u32 = 1 << 8; // C17
 pub const O_ALLOC: u32 = 1 << 9; // C19
 pub const O_LINEAR: u32 = 1 << 10; // C20
-/// compare chunk value too (C09) — part of O_LANG for the chunk entry
-pub const O_ALL_SINGLE: u32 = 0x7FF;
 
 #[derive(Clone, Debug)]
 pub struct Violation {
@@ -360,7 +358,7 @@ impl Checker {
         }
 
         if armed & O_ZEROCOPY != 0 {
-            if let Some(w) = zero_copy(o, len) {
+            if let Some(w) = zero_copy(o, input) {
                 self.violation(w, lane, input, describe_obs(o), "every non-empty slice inside the buffer (inside buf[..n] on Complete), in input order".into(), None);
                 ok = false;
             }
@@ -480,7 +478,17 @@ impl Checker {
                 }
             }
             if armed & O_ERRKIND != 0 {
-                if let (St::Err(a), St::Err(b)) = (o.st, mo.st) {
+                // TooManyHeaders exactly when one more well-formed line than the array holds has
+                // been completely received, and for no other reason
+                let a = o.st == St::Err(Kind::TooManyHeaders);
+                let b = mo.st == St::Err(Kind::TooManyHeaders);
+                if a != b {
+                    self.violation(
+                        if a { "TooManyHeaders although no surplus header line has been completely received".into() } else { "a surplus header line was completely received but the result is not TooManyHeaders".into() },
+                        lane, input, describe_obs(o), describe_model(mo), None,
+                    );
+                    ok = false;
+                } else if let (St::Err(a), St::Err(b)) = (o.st, mo.st) {
                     if a != b {
                         self.violation(format!("error kind {:?}, first offending byte belongs to {:?}", a, b), lane, input, describe_obs(o), describe_model(mo), None);
                         ok = false;
@@ -607,9 +615,21 @@ fn streaming(p: &Obs, c: &Obs) -> Option<String> {
     None
 }
 
-fn zero_copy(o: &Obs, _len: u32) -> Option<String> {
+fn zero_copy(o: &Obs, input: &[u8]) -> Option<String> {
     if o.flags & F_OUTSIDE != 0 {
         return Some("a non-empty slice lies outside the input buffer".into());
+    }
+    if let St::Complete(n) = o.st {
+        // a header's name is followed by its value: the colon lies between them
+        for i in 0..(o.nh as usize).min(MAXH) {
+            let (nf, vf) = (&o.hdrs[i].0, &o.hdrs[i].1);
+            if nf.outside || vf.outside || vf.len() == 0 || nf.len() == 0 {
+                continue;
+            }
+            if nf.e <= vf.s && (vf.s as usize) <= input.len() && vf.e <= n && !input[nf.e as usize..vf.s as usize].contains(&b':') {
+                return Some(format!("header {}: no colon between the name and the value slice (value shifted onto its delimiter)", i));
+            }
+        }
     }
     if let St::Complete(n) = o.st {
         let mut last = 0u32;
